@@ -39,10 +39,11 @@ def convertString : List Nat → Option (List Nat)
     | some r => some (c :: r)
     | none => none
 
-/-- `_escape_string`: printable ASCII as itself (backslash and quote escaped), everything else as a
-    three-digit octal escape (fixed width: a following digit is never absorbed). -/
+/-- `_escape_string`: printable ASCII as itself (backslash, quote and question mark escaped — no
+    trigraph can form), everything else as a three-digit octal escape (fixed width: a following
+    digit is never absorbed). -/
 def escapeByte (b : Nat) : List Nat :=
-  if b = 92 ∨ b = 34 then [92, b]
+  if b = 92 ∨ b = 34 ∨ b = 63 then [92, b]
   else if 32 ≤ b ∧ b < 127 then [b]
   else [92, 48 + b / 64, 48 + b / 8 % 8, 48 + b % 8]
 
